@@ -51,6 +51,94 @@ var c10Queries = []string{
 	"SELECT * FROM t x PARALLEL LEFT JOIN u y ON x.a = y.a AND vfail(1) = 1",
 	"SELECT * FROM t x PARALLEL JOIN t y ON x.a <= y.a AND x.s",
 	"SELECT * FROM t x PARALLEL RIGHT JOIN t y ON x.a <= y.a AND vfailb()",
+	// (from here: appended after the three-worker block, see H_C10_queries2)
+}
+
+// more unusual-but-parseable queries, evaluated like c10Queries
+var c10Queries2 = []string{
+	"SELECT * FROM t x LEFT JOIN u y ON x.a = y.a INTO z",
+	"SELECT * FROM t x RIGHT JOIN u y ON x.a = y.a INTO z",
+	"SELECT * FROM t x JOIN u y ON x.a = y.a INTO z",
+	"SELECT * FROM t x LEFT JOIN u y ON x.a < y.a INTO z",
+	"SELECT * FROM t x PARALLEL LEFT JOIN u y ON x.a = y.a INTO z",
+	"SELECT * FROM t x LEFT HASH_JOIN u y ON x.a = y.a INTO z",
+	"SELECT AWAIT() FROM t",
+	"SELECT AWAIT(a, s) AS v FROM t",
+	"SELECT AWAIT(ASYNC.vfail(a)) AS v FROM t",
+	"SELECT a FROM t WHERE AWAIT()",
+	"SELECT a FROM dual",
+	"SELECT 1 + 1 AS two",
+	"SELECT a FROM t HAVING a > 1",
+	"SELECT a FROM t GROUP BY zz HAVING SUM(s) > 1",
+	"SELECT a FROM t ORDER BY zz.q DESC, s",
+	"SELECT a FROM t LIMIT 1 OFFSET 99999999999999999999",
+	"SELECT t.* FROM t",
+	"SELECT x.* FROM t x JOIN u y ON x.a = y.a",
+	"SELECT a FROM `t{a}`",
+	"SELECT a FROM `t{a|number}`",
+	"SELECT a FROM `t.arr[0][0]`",
+	"SELECT a FROM `mix=>a`",
+	"SELECT a FROM `distinct=>a.b`",
+	"SELECT a FROM `nosuch=>t`",
+	"SELECT CASE a WHEN s THEN o END AS v FROM t",
+	"SELECT a FROM t WHERE s LIKE o",
+	"SELECT a FROM t WHERE a BETWEEN s AND o",
+	"SELECT a FROM t WHERE o IN (SELECT a, s FROM u)",
+	"SELECT a FROM t WHERE (a, s) IN ((1, 'x'))",
+	"SELECT a FROM t WHERE EXISTS (SELECT * FROM `<-zz`)",
+	"SELECT (SELECT a FROM `<-<-<-t`) AS v FROM t",
+	"SELECT -s AS v, ~o AS w, !arr AS z FROM t",
+}
+
+// H_C10_queries2: the second list under the option combinations.
+func H_C10_queries2() {
+	qi := verif.Choose("query", len(c10Queries2))
+	oi := verif.Choose("options", 4)
+	a := float64(verif.IntRange("a", -2, 9)) / 2
+	doc := Map{
+		"t": []any{Map{"a": a, "s": verif.Str("s", 1, "a%"), "o": Map{"k": a}, "arr": []any{a}}, Map{"a": float64(2), "s": "x", "o": nil, "arr": []any{}}},
+		"u": []any{Map{"a": float64(2)}, Map{"a": Map{"b": a}}},
+		"a": Map{"b": a},
+	}
+	var opts []QueryOption
+	if oi&1 != 0 {
+		opts = append(opts, Wrapped())
+	}
+	if oi&2 != 0 {
+		opts = append(opts, PostgresEscapingDialect(), IdomaticArrays())
+	}
+	RegisterFunction("vfail", failingFunc)
+	verif.Opt("schedules", 1)
+	verif.Opt("preempt", 1)
+	verif.Opt("recursion-is-violation", 1)
+	newExec(doc, c10Queries2[qi], opts...)
+	verif.Drain()
+	verif.Reach("end")
+}
+
+var c10Funcs = []string{"sum", "avg", "min", "max", "count", "concat", "first", "last", "elementat", "defaultkey", "changetype", "unwind", "if", "fuse", "daterange", "constant", "getvar", "setvar", "raise_when", "raise", "report_when", "report", "array", "to_lower", "to_upper", "await"}
+var c10Args = []string{"", "a", "s", "nul", "arr", "o", "a, a", "s, a", "arr, s", "nul, nul", "a, s, arr", "s, s, s", "a, a, a, a", "*"}
+
+// H_C10_arity: every built-in function called with every short argument
+// list of every kind (wrong counts, wrong types, NULLs), plain and under the
+// goroutine qualifiers: an error or a result, never a panic or a hang.
+func H_C10_arity() {
+	fi := verif.Choose("func", len(c10Funcs))
+	ai := verif.Choose("args", len(c10Args))
+	qual := []string{"", "ASYNC.", "SPIN.", "ONCE."}[verif.Choose("qualifier", 4)]
+	pos := verif.Choose("position", 2)
+	a := float64(verif.IntRange("a", -1, 2))
+	doc := Map{"t": []any{Map{"a": a, "s": "x", "nul": nil, "arr": []any{a, "q"}, "o": Map{"k": a}}, Map{"a": float64(1), "s": "", "nul": nil, "arr": []any{}, "o": nil}}}
+	verif.Opt("schedules", 1)
+	verif.Opt("preempt", 1)
+	call := qual + c10Funcs[fi] + "(" + c10Args[ai] + ")"
+	sql := "SELECT " + call + " AS v FROM t"
+	if pos == 1 {
+		sql = "SELECT a FROM t WHERE " + call
+	}
+	newExec(doc, sql, WithVars(map[string]any{}), WithConstants(map[string]any{"x": a}), UnReportedErrors(func(error) {}))
+	verif.Drain()
+	verif.Reach("end")
 }
 
 // H_C10_queries: malformed / unsupported / failing queries under every
